@@ -129,14 +129,14 @@ Qed.
 Section Top.
 Variable c : config.
 Variable tmpl : list limiter.
-Hypothesis Htmpl : charge_init (limiters0 c) (c_init c) = Some tmpl.
+Hypothesis Htmpl : charge_init (limiters0 c) (charged c) = Some tmpl.
 Notation P args := (process arg (list limiter) tmpl accf (fatalf c) (c_r c) tmpl [] false args []).
 
 Lemma run_factor args os : c_replace c = false ->
   xargs_run c args false os = finish c (P args) {| res := Success; outs := os; log := [] |}.
 Proof. intros Hnr. unfold xargs_run. rewrite Htmpl. now apply process_x_factor. Qed.
 
-Lemma tmpl_eq : tmpl = map (advi (c_init c)) (limiters0 c).
+Lemma tmpl_eq : tmpl = map (advi (charged c)) (limiters0 c).
 Proof. now apply charge_init_spec. Qed.
 
 Lemma fits_within b : Forall noninit b -> (fits arg (list limiter) tmpl accf b <-> within_limits c b).
@@ -238,14 +238,14 @@ End Top.
 
 (* xargs' own errors give status 1 (when no child outcome is fatal) *)
 (* -I with empty input: nothing is run, and it is not an error *)
-Lemma replace_empty_input c tmpl os : charge_init (limiters0 c) (c_init c) = Some tmpl ->
+Lemma replace_empty_input c tmpl os : charge_init (limiters0 c) (charged c) = Some tmpl ->
   c_replace c = true -> xargs_run c [] false os = (0, []).
 Proof.
   intros H Hr. unfold xargs_run. rewrite H. cbn [process_x]. unfold exec. rewrite Hr. cbn.
   destruct (negb (c_r c) || false); reflexivity.
 Qed.
 
-Lemma base_too_large c args ie os : charge_init (limiters0 c) (c_init c) = None ->
+Lemma base_too_large c args ie os : charge_init (limiters0 c) (charged c) = None ->
   xargs_run c args ie os = (1, []).
 Proof. intros H. unfold xargs_run. now rewrite H. Qed.
 
@@ -263,9 +263,7 @@ Qed.
 Theorem input_error_status c tmpl : forall args ls cur p st, forallb nonfatal (outs st) = true ->
   fst (process_x c tmpl ls cur p args true st) = 1.
 Proof.
-  induction args as [|a rest IH]; intros ls cur p st H.
-  { cbn [process_x]. destruct p; [|reflexivity].
-    destruct (exec_nonfatal_cases c st cur H) as [(st' & E & _)|(l & E)]; rewrite E; reflexivity. }
+  induction args as [|a rest IH]; intros ls cur p st H; [reflexivity|].
   cbn [process_x]. destruct (try_arg ls a).
   { destruct (c_replace c); [|now apply IH].
     destruct (exec_nonfatal_cases c st (cur ++ [a]) H) as [(st' & E & H')|(l & E)]; rewrite E; [now apply IH|reflexivity]. }
@@ -306,7 +304,7 @@ Qed.
 
 
 Lemma charge_init_spec_top c tmpl :
-  charge_init (limiters0 c) (c_init c) = Some tmpl -> tmpl = map (advi (c_init c)) (limiters0 c).
+  charge_init (limiters0 c) (charged c) = Some tmpl -> tmpl = map (advi (charged c)) (limiters0 c).
 Proof. apply charge_init_spec. Qed.
 
 Lemma codes_table :
@@ -331,7 +329,7 @@ Proof.
 Qed.
 
 Theorem replace_one_run_per_line c tmpl args :
-  charge_init (limiters0 c) (c_init c) = Some tmpl -> c_n c = Some 1 -> Forall noninit args -> args <> [] ->
+  charge_init (limiters0 c) (charged c) = Some tmpl -> c_n c = Some 1 -> Forall noninit args -> args <> [] ->
   match process arg (list limiter) tmpl accf (fatalf c) (c_r c) tmpl [] false args [] with
   | Ran bs => bs = map (fun a => [a]) args
   | TooLarge bs => bs = map (fun a => [a]) (concat bs)
@@ -355,7 +353,7 @@ Proof.
 Qed.
 
 Theorem replace_no_fatal c tmpl args ie os : c_replace c = true ->
-  charge_init (limiters0 c) (c_init c) = Some tmpl -> Forall (line_runs c tmpl) args ->
+  charge_init (limiters0 c) (charged c) = Some tmpl -> Forall (line_runs c tmpl) args ->
   (length args <= length os)%nat -> forallb nonfatal (firstn (length args) os) = true ->
   xargs_run c args ie os =
   (if ie then 1 else if forallb exit_zero (firstn (length args) os) then 0 else 123, map (fun a => [a]) args).
@@ -367,7 +365,7 @@ Proof.
 Qed.
 
 Theorem replace_first_fatal c tmpl args ie pre o post : c_replace c = true ->
-  charge_init (limiters0 c) (c_init c) = Some tmpl -> Forall (line_runs c tmpl) args ->
+  charge_init (limiters0 c) (charged c) = Some tmpl -> Forall (line_runs c tmpl) args ->
   forallb nonfatal pre = true -> nonfatal o = false -> (length pre < length args)%nat ->
   xargs_run c args ie (pre ++ o :: post) = (fatal_code o, firstn (S (length pre)) (map (fun a => [a]) args)).
 Proof.
@@ -377,33 +375,36 @@ Proof.
   now apply (single_runs c tmpl).
 Qed.
 
-(* ---------- an input error does not take the arguments read before it away ---------- *)
+(* ---------- an input error: what has been run is a run of complete batches, short of at most the one being collected ---------- *)
 (* the same configuration with -r: at the end of the input a command is run only if arguments are pending *)
 Definition with_r (c : config) : config :=
   {| c_n := c_n c; c_L := c_L c; c_s := c_s c; c_x := c_x c; c_r := true; c_sys := c_sys c; c_init := c_init c;
      c_replace := c_replace c; c_subst := c_subst c |}.
 
-(* The invocations made when the reader fails after [args] (an unterminated quote, a read error) are exactly the invocations of
-   the run on [args] alone under -r: every complete argument is delivered, in the same batches; only then is the error reported
-   (status 1 unless a child outcome was fatal: input_error_status). *)
-Theorem input_error_invocations c tmpl : forall args ls cur p st,
-  snd (process_x c tmpl ls cur p args true st) = snd (process_x (with_r c) tmpl ls cur p args false st).
+(* The invocations made when the reader fails after [args] (an unterminated quote, a read error) are the invocations of the run
+   on [args] alone under -r, short of at most one - the batch that was still being collected: no argument is run in another
+   batch, twice or out of order because of the error; what is not run is the unfinished batch only. *)
+Theorem input_error_invocations c tmpl : forall args ls cur p st, exists tail,
+  snd (process_x (with_r c) tmpl ls cur p args false st) = snd (process_x c tmpl ls cur p args true st) ++ tail /\
+  (length tail <= 1)%nat.
 Proof.
   induction args as [|a rest IH]; intros ls cur p st.
-  - cbn [process_x with_r c_r negb orb]. destruct p; [|reflexivity].
-    change (exec (with_r c) st cur) with (exec c st cur).
-    destruct (exec c st cur); reflexivity.
+  - cbn [process_x with_r c_r negb orb]. destruct p; [|exists []; rewrite app_nil_r; split; [reflexivity|cbn; lia]].
+    change (exec (with_r c) st cur) with (exec c st cur). unfold exec.
+    destruct (c_replace c && match cur with [] => true | _ => false end); [exists []; rewrite app_nil_r; split; [reflexivity|cbn; lia]|].
+    destruct (c_replace c && negb (subst_fits c cur)); [exists []; rewrite app_nil_r; split; [reflexivity|cbn; lia]|].
+    exists [cur]. destruct (classify (next_out (outs st))); cbn [snd log]; split; try reflexivity; cbn; lia.
   - cbn [process_x]. change (c_replace (with_r c)) with (c_replace c).
     change (fatalf (with_r c) ls a) with (fatalf c ls a).
     destruct (try_arg ls a).
     + destruct (c_replace c); [|apply IH].
       change (exec (with_r c) st (cur ++ [a])) with (exec c st (cur ++ [a])).
-      destruct (exec c st (cur ++ [a])); [apply IH|reflexivity].
-    + destruct (fatalf c ls a); [reflexivity|].
+      destruct (exec c st (cur ++ [a])); [apply IH|exists []; rewrite app_nil_r; split; [reflexivity|cbn; lia]].
+    + destruct (fatalf c ls a); [exists []; rewrite app_nil_r; split; [reflexivity|cbn; lia]|].
       change (exec (with_r c) st cur) with (exec c st cur).
-      destruct (if p then exec c st cur else inl st) as [st'|stop]; [|reflexivity].
-      destruct (try_arg tmpl a); [|reflexivity].
+      destruct (if p then exec c st cur else inl st) as [st'|stop]; [|exists []; rewrite app_nil_r; split; [reflexivity|cbn; lia]].
+      destruct (try_arg tmpl a); [|exists []; rewrite app_nil_r; split; [reflexivity|cbn; lia]].
       destruct (c_replace c); [|apply IH].
       change (exec (with_r c) st' [a]) with (exec c st' [a]).
-      destruct (exec c st' [a]); [apply IH|reflexivity].
+      destruct (exec c st' [a]); [apply IH|exists []; rewrite app_nil_r; split; [reflexivity|cbn; lia]].
 Qed.
